@@ -18,12 +18,19 @@ class Obligation(object):
         self.carries_property = carries_property
         self.meta = meta or {}
         self.unfold_depth = unfold_depth
+        self.frame_heuristic = True
         self.result = None; self.backend = None; self.solver_s = 0.0; self.model = None; self.reason = None
         self.backends_tried = []
 
     def formulas(self):
         fs = list(self.hyps) + [z3.Not(self.goal)]
-        ax = speclib.instantiate(fs, depth=self.unfold_depth)
+        # an application occurring identically in the goal and in the hypotheses is framed context: keep it folded
+        skip = set()
+        if self.frame_heuristic:
+            g = {a.get_id() for a in speclib.apps_in([self.goal])}
+            h = {a.get_id() for a in speclib.apps_in(self.hyps)}
+            skip = g & h
+        ax = speclib.instantiate(fs, depth=self.unfold_depth, skip=skip)
         return fs + ax
 
     def to_smt2(self):
@@ -81,29 +88,103 @@ def run_cvc5(ob, timeout_ms=None):
     if first == 'sat': return 'failed', dt, None, 'cvc5 sat (no model extracted)'
     return 'unknown', dt, None, out[:300]
 
+QUICK_MS = int(os.environ.get('PYVC_QUICK_MS', '1500'))
+
+def _race(ob, z3_ms, cvc5_ms):
+    """z3 (CLI) and cvc5 (CLI) on the same SMT-LIB text, concurrently; first definite answer wins"""
+    txt = ob.to_smt2()
+    fd, path = tempfile.mkstemp(suffix='.smt2', prefix='pyvc_'); os.write(fd, txt.encode()); os.close(fd)
+    procs = {
+        'z3': subprocess.Popen(['z3-new', '-T:%d' % max(1, z3_ms // 1000), path], stdout=subprocess.PIPE, stderr=subprocess.STDOUT, text=True),
+        'cvc5': subprocess.Popen(['/usr/bin/cvc5', '--strings-exp', '--tlimit=%d' % cvc5_ms, path], stdout=subprocess.PIPE, stderr=subprocess.STDOUT, text=True),
+    }
+    t0 = time.time(); results = {}
+    deadline = t0 + max(z3_ms, cvc5_ms) / 1000.0 + 5
+    try:
+        while procs and time.time() < deadline:
+            for name, p in list(procs.items()):
+                if p.poll() is not None:
+                    out = (p.stdout.read() or '').strip()
+                    first = out.split('\n')[0].strip() if out else ''
+                    r = 'proved' if first == 'unsat' else 'failed' if first == 'sat' else 'unknown'
+                    results[name] = (r, time.time() - t0, out[:300])
+                    del procs[name]
+                    if r != 'unknown':
+                        return name, r, time.time() - t0, results
+            time.sleep(0.01)
+        return None, 'unknown', time.time() - t0, results
+    finally:
+        for p in procs.values():
+            try: p.kill()
+            except Exception: pass
+        try: os.unlink(path)
+        except OSError: pass
+
 def discharge(ob, both=False):
-    """fill in ob.result/backend/solver_s/model"""
-    r, dt, m, why = run_z3(ob)
+    """in-process z3 with a short budget first (most obligations take milliseconds); then z3 and cvc5
+    race on the SMT-LIB text.  both=True (thorough tier): every obligation is also put to cvc5 and the
+    two answers must not contradict each other."""
+    r, dt, m, why = run_z3(ob, QUICK_MS)
     ob.backends_tried.append(('z3', r, round(dt, 4)))
     ob.solver_s += dt
-    if r == 'unknown' or both:
-        r2, dt2, m2, why2 = run_cvc5(ob)
+    ob.backend = 'z3'
+    if r == 'unknown':
+        who, r, dt2, results = _race(ob, Z3_TIMEOUT_MS, CVC5_TIMEOUT_MS)
+        ob.solver_s += dt2
+        for k, v in results.items(): ob.backends_tried.append((k + '-cli', v[0], round(v[1], 3)))
+        ob.backend = who or 'z3+cvc5'
+        why = '; '.join('%s: %s' % (k, v[2][:120]) for k, v in results.items()) if r == 'unknown' else None
+        if r == 'failed':
+            r3, dt3, m, _ = run_z3(ob, Z3_TIMEOUT_MS)      # for the model
+            ob.solver_s += dt3
+    elif both:
+        r2, dt2, _, why2 = run_cvc5(ob)
         ob.backends_tried.append(('cvc5', r2, round(dt2, 4)))
         ob.solver_s += dt2
-        if r == 'unknown':
-            r, m, why = r2, m2, why2
-            ob.backend = 'cvc5'
-        else:
-            ob.backend = 'z3+cvc5' if r2 == r else 'z3'
-            if r2 != 'unknown' and r2 != r:
-                raise RuntimeError('back ends disagree on %s: z3=%s cvc5=%s' % (ob.name, r, r2))
-    else:
-        ob.backend = 'z3'
+        if r2 != 'unknown' and r2 != r:
+            raise RuntimeError('back ends disagree on %s: z3=%s cvc5=%s' % (ob.name, r, r2))
+        if r2 == r: ob.backend = 'z3+cvc5'
     ob.result, ob.model, ob.reason = r, m, why
     return ob
 
-def discharge_all(obls, both=False, progress=None):
-    for ob in obls:
-        discharge(ob, both=both)
-        if progress: progress(ob)
+def discharge_all(obls, both=False, jobs=None):
+    from concurrent.futures import ThreadPoolExecutor
+    pending = [o for o in obls if o.result is None]
+    # z3's python API is not thread safe: the in-process attempts run serially, the races in parallel
+    hard = []
+    for ob in pending:
+        r, dt, m, why = run_z3(ob, QUICK_MS)
+        ob.backends_tried.append(('z3', r, round(dt, 4))); ob.solver_s += dt; ob.backend = 'z3'
+        if r == 'unknown': hard.append(ob)
+        else:
+            ob.result, ob.model, ob.reason = r, m, why
+    texts = {id(ob): ob.to_smt2() for ob in hard}
+    def work(ob):
+        class _O(object): pass
+        o = _O(); o.to_smt2 = lambda: texts[id(ob)]
+        return _race(o, Z3_TIMEOUT_MS, CVC5_TIMEOUT_MS)
+    if hard:
+        with ThreadPoolExecutor(max_workers=jobs or 8) as tp:
+            for ob, (who, r, dt2, results) in zip(hard, tp.map(work, hard)):
+                ob.solver_s += dt2
+                for k, v in results.items(): ob.backends_tried.append((k + '-cli', v[0], round(v[1], 3)))
+                ob.backend = who or 'z3+cvc5'
+                ob.result = r
+                ob.reason = '; '.join('%s: %s' % (k, v[2][:120]) for k, v in results.items()) if r == 'unknown' else None
+        for ob in hard:
+            if ob.result == 'failed':
+                r3, dt3, m, _ = run_z3(ob, Z3_TIMEOUT_MS); ob.model = m; ob.solver_s += dt3
+    if both:
+        easy = [o for o in pending if o not in hard]
+        texts2 = {id(ob): ob.to_smt2() for ob in easy}
+        def work2(ob):
+            class _O(object): pass
+            o = _O(); o.to_smt2 = lambda: texts2[id(ob)]
+            return run_cvc5(o)
+        with ThreadPoolExecutor(max_workers=jobs or 8) as tp:
+            for ob, (r2, dt2, _, why2) in zip(easy, tp.map(work2, easy)):
+                ob.backends_tried.append(('cvc5', r2, round(dt2, 4))); ob.solver_s += dt2
+                if r2 != 'unknown' and r2 != ob.result:
+                    raise RuntimeError('back ends disagree on %s: z3=%s cvc5=%s' % (ob.name, ob.result, r2))
+                if r2 == ob.result: ob.backend = 'z3+cvc5'
     return obls
